@@ -353,7 +353,7 @@ pub fn run(sut: &dyn Sut, tier: Tier) -> ! {
         run.finish(&stats);
     }
     // random part
-    let cases = tier.pick(4000, 60000);
+    let cases = tier.pick(10000, 150000);
     let seed = run.seed_for(1);
     let mut j = |choices: &[u32], st: &mut Stats| -> Result<(), String> {
         let mut ch = Ch::new(choices);
